@@ -154,6 +154,25 @@ def run_one(family, rng, idx, tier):
         for k in range(BATCH):
             simname = simcases.CONT[k % len(simcases.CONT)]
             case = gen(rng, simname, force_str=(simname not in ("Gillespie_simple_contagion", "Gillespie_complex_contagion")))
+            if simname == "Gillespie_simple_contagion" and k % 16 < 8:
+                # a busy epidemic on a dense DIRECTED network with string names and string statuses:
+                # many nodes have several in-neighbours whose pairs are re-inserted in one update
+                from eonsim import cases as _cases, contagion as _cont
+                c2 = _cont.gen_simple_case(rng, nmax=8, template=rng.choice(["SIS", "SIRS", "SIR", "SEIR"]))
+                spec = _cases.gen_graph(rng, 5, 8, directed=True, family=rng.choice(["complete", "gnp", "gnp"]),
+                                        edge_w="tenth", node_w="tenth", extra_edge_attrs={"w2": "tenth"})
+                for a in spec["nattr"]:
+                    a["nw2"] = _cases.draw_weight(rng, "tenth")
+                n2 = len(spec["nodes"])
+                sts = [_cont.dec_status(x) for x in c2["statuses"]]
+                for x in c2["spont"]:
+                    x[2] = max(x[2], 0.3) if x[2] else 0.7
+                for x in c2["induced"]:
+                    x[3] = max(x[3], 0.3) if x[3] else 1.0
+                case.update({kk: c2[kk] for kk in ("statuses", "spont", "induced", "ret", "ic_type", "template")})
+                case["graph"] = spec
+                case["IC"] = [_cont.enc_status(rng.choice(sts)) for _ in range(n2)]
+                case["tmax"] = case["tmin"] + 4.0
             if simname in ("Gillespie_simple_contagion", "Gillespie_complex_contagion"):
                 # string node names for the generic simulators as well
                 spec = case["graph"]
